@@ -45,6 +45,17 @@ func partStepThrough(c *check.Ctx, a *acc, victims []string) {
 					}
 				}
 				cases = append(cases, sc)
+				// fault at that point: the victim's client resets its connection while the
+				// server is parked there (first pass of each point; a third of them in the quick tier)
+				if sc.Skip == 0 && v != "leave" && v != "lastleave" {
+					h := uint64(c.Seed)*0xD6E8FEB86659FD93 ^ uint64(len(cases)+7)*0x9E3779B97F4A7C15
+					h ^= h >> 31
+					if !c.Quick() || h%3 == 0 {
+						ab := sc
+						ab.Abort = true
+						cases = append(cases, ab)
+					}
+				}
 			}
 			learned[v] = len(cs)
 		}
@@ -54,6 +65,7 @@ func partStepThrough(c *check.Ctx, a *acc, victims []string) {
 	var failed atomic.Int32
 	runs, reached, overlapped := 0, 0, 0
 	perVictim := map[string]int{}
+	aborted := 0
 	sites := map[string]bool{}
 	var samples []any
 	workers := 12
@@ -85,6 +97,9 @@ func partStepThrough(c *check.Ctx, a *acc, victims []string) {
 			if res.GateReached {
 				reached++
 				perVictim[cases[i].Victim]++
+				if cases[i].Abort {
+					aborted++
+				}
 				sites[cases[i].Victim+" @ "+cases[i].Site] = true
 				if res.Overlapped {
 					overlapped++
@@ -119,6 +134,7 @@ func partStepThrough(c *check.Ctx, a *acc, victims []string) {
 	c.Coverage["step_through_runs_script_completed_while_parked"] = overlapped
 	c.Coverage["step_through_parked_per_victim"] = perVictim
 	c.Coverage["step_through_distinct_victim_points"] = len(sites)
+	c.Coverage["step_through_runs_with_client_reset_while_parked"] = aborted
 	a.add(runs, reached, fmt.Sprintf("E2 step-through: a join by id, a departure, a session-switching join and an entity deletion are parked at each scheduling point they pass (%d distinct (operation, point) pairs reached) while a member adds and deletes entities, updates a component, sets an action, adds an asset and sends a custom message; at quiescence the witness's and the victim's folded views against a probe, exactly-once of the script's and the victim's relays at the witness, the departed victim's leftovers, and gauge / registry / frame workers; non-trivial when the victim was actually parked", len(sites)), samples...)
 }
 
